@@ -8,7 +8,7 @@ Usage: tools/seedcheck.py Cnn [A|B] [--checks C02,C13]"""
 import os, re, subprocess, sys, json, shutil, time
 
 ROOT = os.path.dirname(os.path.dirname(os.path.abspath(__file__)))
-WT = "/tmp/wt-seed"
+WT = os.environ.get("SEED_WT", "/tmp/wt-seed")
 GO = "/root/go/pkg/mod/golang.org/toolchain@v0.0.1-go1.25.7.linux-amd64/bin/go"
 ENV = dict(os.environ, GOTOOLCHAIN="local", GOFLAGS="-mod=mod", GOPROXY="off")
 ENV.pop("GOSUMDB", None)
